@@ -85,7 +85,11 @@ class RunoutMonitor(Monitor):
             if str(s.mode) == 'Tournament':
                 ctx.violate('run-out selection performed in tournament mode')
         if k in ('BetCollection', 'Folding', 'CheckingOrCalling',
-                 'HoleDealing', 'BoardDealing', 'CardBurning'):
+                 'HoleDealing', 'BoardDealing', 'CardBurning',
+                 'StandingPatOrDiscarding'):
+            # (a draw round played out by all-in players can be the last
+            # thing before the selection: custom street lists with a draw
+            # street followed by board streets)
             self._detect(ctx, s)
 
     def on_decision(self, ctx, s, avail):
